@@ -165,7 +165,8 @@ class Ref:
         from .progs import OPT_KEYS
 
         inherited = caller_ctx.get("__exports__", {})
-        def_opts = {k: v for k, v in t.options.items() if k in OPT_KEYS or k == "prov"}
+        def_opts = {k: v for k, v in t.options.items()
+                    if k in OPT_KEYS or k in ("prov", "cache_scope")}
         def_opts.update(t.def_export)
         # call-time overrides are chained calls: the later one wins for a repeated key
         call_layers = [opts.get("options") or {}, opts.get("export") or {}]
